@@ -226,10 +226,11 @@ def _atof64_check(rep, mod):
     for i in f.all_insts():
         if i.op == 'add' and i.block not in E['loop']['blocks'] and i.id != E['add'].id:
             for k in (0, 1):
-                o = i.ops[k]
+                # a widening of the exponent value before it is added (`long d` instead of `int d`) changes nothing
+                o = strip(f, i.ops[k], ops=('sext', 'zext'))
                 if o.k == 'inst' and (o.id == E['phi'].id or (f.insts[o.id].op in ('mul', 'sub', 'select') and
                                                                depends_mul(f, o, E['phi']))):
-                    merges.append((i, o))
+                    merges.append((i, i.ops[k]))
     if len(merges) != 1:
         raise AnalysisBroken('%s: expected one addition of the exponent to the scale count, found %d' % (fname, len(merges)))
     M, contrib = merges[0]
